@@ -113,7 +113,14 @@ void Executor::check_loaded_lp(Obj& o, const std::string& what) {
       if (!f) { viol("C13", "inconsistent_lp_after_read", what + ": column entry not mirrored in the row copy"); return; } } }
   if (cnt != cnt2 || cnt != s.numNonzeros()) { viol("C13", "inconsistent_lp_after_read", what + ": nonzero counts of row copy, column copy and numNonzeros() differ"); return; }
   if (s.numRowNames() >= 0 && (s.numRowNames() != m || s.numColNames() != n)) { o.inconsistent = true; viol("C13", "names_do_not_match_dimensions", what + ": name sets do not match the dimensions"); return; }
-  if (s.getInt(P::i("syncmode")) != 0 && !s.areLPsInSync(true, true)) { viol("C13", "inconsistent_lp_after_read", what + ": areLPsInSync() false after a successful read"); return; }
+  if (s.getInt(P::i("syncmode")) != 0 && !s.areLPsInSync(true, true)) {
+    // not a defect of the reader: a rational side or bound within one rounding step below the infinity threshold (1e100) is finite in the
+    // rational LP and infinite in its double image; areLPsInSync() reports that as a difference (seen with a bit flipped in a 101-digit number)
+    bool threshold = false; double inf = s.getReal(P::r("infty"));
+    for (int i = 0; i < m && !threshold; i++) { int a, b; Q va, vb; s.lhsQ(i, a, va); s.rhsQ(i, b, vb); if ((a == 0 && s.lhs(i) <= -inf) || (b == 0 && s.rhs(i) >= inf)) threshold = true; }
+    for (int j = 0; j < n && !threshold; j++) { int a, b; Q va, vb; s.lowerQ(j, a, va); s.upperQ(j, b, vb); if ((a == 0 && s.lower(j) <= -inf) || (b == 0 && s.upper(j) >= inf)) threshold = true; }
+    if (threshold) count("areLPsInSync_infinity_threshold_artifact");
+    else { viol("C13", "inconsistent_lp_after_read", what + ": areLPsInSync() false after a successful read"); return; } }
 }
 
 void Executor::op_file(const Op& op, TaskCtx& t) {
